@@ -112,14 +112,22 @@ impl<'a> Gram<'a> {
                 "width(40)", "width(1)", "width(200)", "indent(4)", "indent(1)", "layout(preserve)", "layout(blank_lines)", "layout(ignore)",
                 "parentheses(minimal)", "parentheses(preserve)", "verbatim", "indent(1000000000000)", "width(1000000000000)", "indent(0)", "width(0)",
             ];
+            // options that do not validate (misspelt, wrong argument shape, unknown value); a directive with one of them,
+            // or with an option given twice, is inert and must format like a term without it
+            let bad = ["indnet(4)", "verbatim(true)", "width()", "width(10, 20)", "width(\"80\")", "layout(sideways)", "100", "\"verbatim\"", "Width(40)", "parentheses()", "indent(-1)"];
             let n = 1 + self.rng.below(2);
             let mut chosen: Vec<&str> = Vec::new();
+            let allow_repeats = self.rng.chance(1, 8);
             for _ in 0..n {
                 let o = *self.rng.pick(&opts);
                 let key = o.split('(').next().unwrap();
-                if !chosen.iter().any(|c| c.split('(').next().unwrap() == key) {
+                if allow_repeats || !chosen.iter().any(|c| c.split('(').next().unwrap() == key) {
                     chosen.push(o);
                 }
+            }
+            if self.rng.chance(1, 8) {
+                let at = self.rng.below(chosen.len() + 1);
+                chosen.insert(at, *self.rng.pick(&bad));
             }
             return format!("@[format({})]", chosen.join(", "));
         }
